@@ -216,6 +216,7 @@ func VH08d_stalled() {
 	sock := vp.New(proto)
 	verif.Assert(sock.SetOption(mangos.OptionWriteQLen, 1) == nil, lab+"/set-wqlen")
 	side := vt.Listen(sock, "a")
+	vt.ChooseErrors() // lost connections report ErrClosed or the raw reset error
 	ps := []*vt.Pipe{side.Peer("src"), side.Peer("x"), side.Peer("y")}
 	stalled := 1 + verif.Choice("stalled", 2)
 	healthy := 3 - stalled
